@@ -197,6 +197,7 @@ MD_TEMPLATE = """# {title} for {n}
 Feeds {{{n}}} people; use a {{2 1/2}} litre pan and {{0.75}} cups of stock per {{3}} guests.
 Plain fractions with long numerators: {{11/2}} hours, {{100/8}} minutes, {{12 /4}} eggs, {{10 11/2}} and {{007}} agents.
 Escaped digits are text, not numbers: {{2 tins (\\4\\0\\0g each)}} of tomatoes.
+Inline markup inside braces stays text: cut into {{8 *thin* slices}} and add {{4 [cups](x.html) of}} milk.
 
 Hard-wrapped prose: shape the mince into {{8 small
 patties}} about 10cm across, rest them for {{1 1/2
@@ -244,7 +245,7 @@ def mdscale_case(seed: int) -> Case:
     # ... including curly-brace expressions that span a soft line break (number on one line, its text / unit on the
     # next; break just before the closing brace; break right after the expression)
     written = [n, n, Fraction(5, 2), 0.75, 3, Fraction(11, 2), Fraction(100, 8), Fraction(12, 4), 10 + Fraction(11, 2), 7, 2,
-               8, Fraction(3, 2), 0.25, 6]
+               8, 4, 8, Fraction(3, 2), 0.25, 6]
     for k in (k1, k2):
         html_k = compile_markdown(text).render(k)
         got_vals = _re.findall(r'<span class="rg-scaled-value">(.*?)</span>', html_k, flags=_re.S)[:len(written)]
@@ -254,6 +255,8 @@ def mdscale_case(seed: int) -> Case:
             break
         prose = "".join(_re.findall(r"<p>.*?</p>", html_k, flags=_re.S))
         wrapped = ('rg-scaled-value">' + render_number(2 * k) + '</span> tins (400g each) of tomatoes',
+                   'rg-scaled-value">' + render_number(8 * k) + '</span> *thin* slices and add',
+                   'rg-scaled-value">' + render_number(4 * k) + '</span> [cups](x.html) of milk',
                    'rg-scaled-value">' + render_number(8 * k) + '</span> small\npatties about 10cm across',
                    'rg-scaled-value">' + render_number(Fraction(3, 2) * k) + '</span>\nhours and add')
         if "{" in prose or "}" in prose or not all(w in prose for w in wrapped):
